@@ -20,6 +20,7 @@ import (
 	"bytes"
 	"errors"
 	goast "go/ast"
+	"go/constant"
 	gotoken "go/token"
 	"go/types"
 	"log"
@@ -1132,6 +1133,18 @@ func compileStringLitEx(ctx *blockCtx, cb *gogen.CodeBuilder, lit *ast.BasicLit)
 			}
 			compileExpr(ctx, v, flags)
 			t := cb.Get(-1).Type
+			if b, ok := t.(*types.Basic); ok && b.Info()&types.IsUntyped != 0 {
+				if e := cb.Get(-1); e.CVal != nil && e.CVal.Kind() == constant.Float {
+					// an untyped float constant such as 1/3.0 has no `string` member
+					// of its own: make it the float64 it would be in a variable
+					stk := cb.InternalStack()
+					stk.PopN(1)
+					t = types.Typ[types.Float64]
+					cb.Typ(t)
+					stk.Push(e)
+					cb.Call(1)
+				}
+			}
 			if t.Underlying() != types.Typ[types.String] {
 				if _, err := cb.Member("string", gogen.MemberFlagAutoProperty); err != nil {
 					if _, e2 := cb.Member("error", gogen.MemberFlagAutoProperty); e2 != nil {
